@@ -33,6 +33,7 @@ fn rejects_roll(max: u32, bm: u16, c: u32) -> bool {
     }
 }
 
+// TIER: quick   KIND: complete
 #[kani::proof]
 fn c04_new_closes_window() {
     let k: u32 = kani::any();
@@ -45,6 +46,7 @@ fn c04_new_closes_window() {
 
 /// Step contract, unicast, encrypted: clauses 1-5 of DESIGN §4/C04, for all states, all
 /// counters `m` and all probe counters `c`.
+// TIER: quick   KIND: complete
 #[kani::proof]
 fn c04_post_recv_unicast_encrypted() {
     let max: u32 = kani::any();
@@ -86,6 +88,7 @@ fn c04_post_recv_unicast_encrypted() {
 }
 
 /// Unsecured sessions additionally accept a restart of the peer's counter.
+// TIER: quick   KIND: complete
 #[kani::proof]
 fn c04_post_recv_unicast_unencrypted() {
     let max: u32 = kani::any();
@@ -119,6 +122,7 @@ fn c04_post_recv_unicast_unencrypted() {
 }
 
 /// Step contract with roll-over arithmetic (group senders).
+// TIER: quick   KIND: complete
 #[kani::proof]
 fn c04_post_recv_rollover() {
     let max: u32 = kani::any();
@@ -252,6 +256,7 @@ mod groups {
     }
 
     /// Store below capacity (reduced: 3 tracked senders) - quick tier, labelled bounded.
+    // TIER: quick   KIND: bounded (3 of 16 tracked group senders)
     #[kani::proof]
     #[kani::unwind(5)]
     fn c04_group_store_3() {
@@ -259,6 +264,7 @@ mod groups {
     }
 
     /// Full store (16 tracked senders = capacity): eviction path - complete for the capacity.
+    // TIER: thorough   KIND: complete
     #[kani::proof]
     #[kani::unwind(18)]
     fn c04_group_store_full() {
@@ -266,6 +272,7 @@ mod groups {
     }
 
     /// Every length from 0 to capacity.
+    // TIER: thorough   KIND: complete
     #[kani::proof]
     #[kani::unwind(18)]
     fn c04_group_store_any_len() {
